@@ -265,10 +265,11 @@ def run_harness(mode, cases, budget=20000, depth=120, tag="h"):
                 f.write("\n".join(norm[pos:hi]) + "\n")
             if os.path.exists(rf):
                 os.remove(rf)
-            with open(of, "w") as o:
+            with open(of, "w") as o, open(of + ".err", "w") as oe:
                 try:
+                    # stdout and stderr are regular files: the harness measures how much each case writes to them directly
                     p = subprocess.run([HARNESS_BIN, mode, cf, rf, str(budget), str(depth)], stdin=subprocess.DEVNULL,
-                                       stdout=o, stderr=subprocess.DEVNULL, timeout=1200, env=ENV)
+                                       stdout=o, stderr=oe, timeout=1200, env=ENV)
                     rc = p.returncode
                 except subprocess.TimeoutExpired:
                     rc = -999
